@@ -20,12 +20,12 @@ RULE = ('scenarios: kind {file, tree, symlink} x route {home cold, home warm, .T
         'non-trivial = the fault was delivered and changed the trace; distinct = (route, faulted op(s), errno(s), outcome)')
 LEVEL2_SCOPE = {'quick': 'second fault on mutating operations with errno in {EACCES, ENOSPC, EIO} for 4 scenarios (file/home-cold, file/fallback, tree/.Trash-uid, link/.Trash/uid)',
                 'thorough': 'all operations x all applicable errnos for (file|tree, home-cold|fallback); quick scope for the other scenarios'}
-ROUTES = ['home-cold', 'home-warm', 'top', 'alt', 'fallback', 'home-info-file', 'home-info-missing']
+ROUTES = ['home-cold', 'home-warm', 'top', 'alt', 'fallback', 'home-info-file', 'home-info-missing', 'alt+fallback']
 KINDS = ['file', 'tree', 'ldir']
 
 
 def dimensions(tier):
-    return {'kinds': 3, 'routes': 7, 'errno_table_size': sum(len(v) for v in faults.ERRNOS.values())}
+    return {'kinds': 3, 'routes': 8, 'errno_table_size': sum(len(v) for v in faults.ERRNOS.values())}
 
 
 def scenarios(tier):
@@ -38,7 +38,7 @@ def level2_filter(tier, scn, op, errno, mut):
         if scn['kind'] in ('file', 'tree') and scn['route'] in ('home-cold', 'fallback'):
             return True
         return bool(mut) and errno in ('EACCES', 'ENOSPC', 'EIO')
-    if key in (('file', 'home-cold'), ('file', 'fallback'), ('tree', 'alt'), ('ldir', 'top')):
+    if key in (('file', 'home-cold'), ('file', 'fallback'), ('tree', 'alt'), ('ldir', 'top'), ('file', 'alt+fallback')):
         return bool(mut) and errno in ('EACCES', 'ENOSPC', 'EIO')
     return False
 
@@ -46,7 +46,7 @@ def level2_filter(tier, scn, op, errno, mut):
 def _layout(s):
     route = s['route']
     B = '/home/u/w' if route.startswith('home') else '/mnt/v1/w'
-    td = {'home-cold': scen.HOME_TRASH, 'home-warm': scen.HOME_TRASH, 'top': '/mnt/v1/.Trash/0', 'alt': '/mnt/v1/.Trash-0', 'fallback': scen.HOME_TRASH, 'home-info-file': scen.HOME_TRASH, 'home-info-missing': scen.HOME_TRASH}[route]
+    td = {'home-cold': scen.HOME_TRASH, 'home-warm': scen.HOME_TRASH, 'top': '/mnt/v1/.Trash/0', 'alt': '/mnt/v1/.Trash-0', 'fallback': scen.HOME_TRASH, 'home-info-file': scen.HOME_TRASH, 'home-info-missing': scen.HOME_TRASH, 'alt+fallback': '/mnt/v1/.Trash-0'}[route]
     return B, td
 
 
@@ -72,7 +72,7 @@ def command(s):
     B, td = _layout(s)
     argv = ['trash-put']
     env = {'HOME': '/home/u'}
-    if s['route'] == 'fallback':
+    if s['route'] in ('fallback', 'alt+fallback'):
         argv.append('--home-fallback')
         env['TRASH_ENABLE_HOME_FALLBACK'] = '1'
     return {'argv': argv + ['x'], 'env': env, 'cwd': B, 'now': '2024-05-06T07:08:09', 'plan': {'resolve': 'all'}}
@@ -117,7 +117,7 @@ def oracle(s, start, after, r, flts):
 
     def viol(what):
         label, allc = causes()
-        if what.startswith('stray-info') and 'info-cleanup-failed' in allc:
+        if what.startswith('half-state(') and 'info-cleanup-failed' in allc and len(cl['new_infos']) == len(cl['new_payloads']) + 1:
             # the fault hit the removal of the failed info file itself: no implementation can clean up then -> don't-care
             return {'verdict': 'dontcare', 'klass': 'stray-info-because-cleanup-itself-failed', 'nontrivial': nt, 'detail': detail}
         return {'verdict': 'viol', 'sig': 'C17|%s|cause=%s' % (what, label), 'klass': what, 'nontrivial': nt,
@@ -145,13 +145,14 @@ def oracle(s, start, after, r, flts):
             if lost:
                 detail['lost'] = lost[:5]
                 return viol('DATA-LOST' + ('+exit0' if r.exit == 0 else ''))
-        what = 'half-state'
-        if cl['new_payloads'] and not cl['new_infos']:
-            what = 'orphan-payload'
-        elif len(cl['new_infos']) > len(cl['new_payloads']):
-            what = 'stray-info'
-        elif not world.under(after, E) and not cl['new_payloads']:
-            what = 'entry-lost'
+        if len(cl['new_infos']) == 1 and cl['new_infos'] == cl['new_payloads'] and any('info does not name the entry' in w or 'info malformed' in w for w in cl['why']) \
+                and not any('payload' in w and 'differs' in w for w in cl['why']) and not world.under(after, E):
+            return viol('trashed-but-the-info-does-not-name-the-entry')
+        # the exact shape of the half state is part of the signature, so that an open finding can only hide
+        # the very same shape: what is left at the origin x new infos x new payloads
+        here_b, here_a = world.under(start, E), world.under(after, E)
+        origin = 'gone' if not here_a else ('intact' if world.same_entry(start, E, after, E, dir_mtime=False) else 'partial')
+        what = 'half-state(origin-%s,%d-new-info,%d-new-payload)' % (origin, len(cl['new_infos']), len(cl['new_payloads']))
         return viol(what + ('+traceback' if tb else ''))
     changed_old = [p for p in start if (p.startswith(td + '/files/') or p.startswith(td + '/info/')) and start[p] != after.get(p) and start[p][0] != 'd']
     if changed_old:
